@@ -55,9 +55,18 @@ def _closure_awaiters(rng):
     task* (they awaited a task that was closed with its scope, or cancelled, and do not handle
     that): such failures stop the scope but never show in a Concurrent, and the scope's own cancel
     signal - queued once per failing child - must be gone when the block has been left."""
-    mode = rng.choice(["closed", "closed", "cancelled"])
+    mode = rng.choice(["closed", "closed", "cancelled", "failed", "failed"])
     pre = []
-    if mode == "closed":
+    if mode == "failed":
+        # t failed in an earlier scope (whose Concurrent the owner handled): everybody who awaits
+        # it afterwards fails with the very same exception object
+        t = {"name": "t", "ops": [{"op": "sleep", "d": rng.choice([0.5, 1])},
+                                  {"op": "raise", "type": rng.choice(["E", "A", "Z"])}]}
+        pre.append({"op": "try", "all": True, "body": [
+            {"op": "scope", "label": "S0", "children": [t],
+             "body": [{"op": "sleep", "d": 2}]}]})
+        outer_children = []
+    elif mode == "closed":
         # t is a volatile child of an earlier scope: closed when that scope ends
         t = {"name": "t", "volatile": True, "ops": [{"op": "sleep", "d": 64}]}
         pre.append({"op": "scope", "label": "S0", "children": [t],
@@ -97,10 +106,11 @@ def _closure_awaiters(rng):
 def generate(rng, tier):
     if rng.random() < 0.02:
         return _closed_while_failing(rng)
-    if rng.random() < 0.03:
+    if rng.random() < 0.04:
         return _closure_awaiters(rng)
     gen = Gen(rng, fail_rate=rng.choice([0.15, 0.3, 0.5]), priv_rate=rng.choice([0.0, 0.15, 0.4]),
-              until_rate=rng.choice([0.0, 0.3]), max_depth=2, cancel_rate=0.1)
+              until_rate=rng.choice([0.0, 0.3]), max_depth=2, cancel_rate=0.1,
+              convert_rate=rng.choice([0.0, 0.0, 0.1, 0.25]))
     scenario, label = gen.program()
     plan = []
     if rng.random() < 0.4:
@@ -185,10 +195,13 @@ def check(rec):
         if observed not in accept:
             bad("outcome", "scope %s ended with %r; body left %r, children failed with %r; "
                 "expected %r" % (label, observed, b_meta, metas, accept[0]))
-        elif observed is not None and observed[0] == "Concurrent":
-            leaves = observed[1:]
-            if len(set(leaves)) != len(leaves):
-                bad("duplicate-child-exception", "scope %s: %r" % (label, observed))
+        elif observed is not None and observed[0] == "Concurrent" and observed != b_meta:
+            # "each once": once per failed child - an object shows twice only if two children
+            # failed with that very object (both had awaited the same failed task)
+            leaves = list(observed[1:])
+            for meta in set(leaves):
+                if leaves.count(meta) > max(1, metas.count(meta)):
+                    bad("duplicate-child-exception", "scope %s: %r" % (label, observed))
         # promptness: the block ends in the time step of the first failure
         firsts = [f[1] for f in failures[:1]]
         if b_meta is not None and not own_signal and b_meta[0] not in SIGNAL_NAMES:
